@@ -1038,7 +1038,37 @@ def contract_call(case):
     return ("ok", True)
 
 
+# ================================================================================================ falsy intermediate values
+def gen_falsy(tier, seed):
+    # (an empty list / tuple handed to a step is refused as "empty data" by design: _validate_data_type; not used here)
+    for pipe in ("int", "dict"):
+        for text in ("0", "1", "2", "3", "4", "7"):
+            yield [pipe, text]
+
+
+def contract_falsy(case):
+    """a composed app returns what its steps compute, also when an intermediate value is falsy (0, [], {})"""
+    from speclib import c14_falsy
+    pipe, text = case
+    r = c14_falsy.run(pipe, text)
+    if r[0] == "raises":
+        return ("fail", f"falsy/{pipe}/raises", f"{case}: {r[1]}")
+    if r[0] == "not-completed":
+        return ("fail", f"falsy/{pipe}/completed-value-turned-into-NotCompleted", f"{case}: {r[1]}; the steps compute {r[2]!r}")
+    if r[1] != r[2]:
+        return ("fail", f"falsy/{pipe}/wrong-value", f"{case}: composed app returned {r[1]!r}, the steps compute {r[2]!r}")
+    return ("ok", True)
+
+
 BOUNDED = {
+    "falsy_values": {
+        "gen": gen_falsy, "contract": contract_falsy,
+        "functions": ["app.composable._call (composition of three or four user-defined apps)", "define_app"],
+        "bound": "2 pipelines over int / dict values x 6 inputs; each passes through an intermediate 0 or {} for some input",
+        "rule": "the composed app's result equals the plain Python composition of its steps; a falsy intermediate value is a "
+                "completed value",
+        "shards": 1,
+    },
     "call": {
         "gen": gen_call, "contract": contract_call, "shards": 8,
         "functions": ["composable._call (define_app __call__)", "composable._validate_data_type", "composable._add",
